@@ -2,7 +2,9 @@
 """C13 (history independence), C14 (any schedule), C15 (refresh): state-machine theorems in Coq
 (Proofs/ServerInv.v) + L2 ties on the real TransitData / cache / Calculator:
   C13: request histories on one TransitData in both cache modes, permuted and with repeats;
-  C14: forced schedules at the four yield points of getConnectionsForScenario (TRROUTING_VERIF hook);
+  C14: forced schedules at the four yield points of getConnectionsForScenario (TRROUTING_VERIF hook), then a free-running
+       phase (tools/c14stress.py: 4-8 threads, no forced scheduling, fresh TransitData every round), plain and under
+       ThreadSanitizer;
   C15: histories with refreshes (update functions in the /updateCache handler's order) over dataset pairs.
 Every response is compared with the extracted model's history-free answer (which the theorems show to be
 what the state machine returns) and with the same request on a fresh process (implementation-only)."""
@@ -67,6 +69,8 @@ def main(pid, tier, seed, replay_path=None):
     t0 = time.time()
     if pid == "C15" and replay_path and replay_path.endswith(".json"):
         return replay_l3(pid, replay_path)
+    if pid == "C14" and replay_path and is_stress_case(replay_path):
+        return replay_stress(pid, tier, seed, replay_path)
     po = cl.proof_obligations(pid)
     l2, e1 = build.build_l2()
     dr, e2 = build.build_driver()
@@ -197,7 +201,25 @@ def main(pid, tier, seed, replay_path=None):
             return 1
         l3res = l3refresh.run(binary, seed, tier)
         l3fails = l3res["fails"]
+    # C14 only: free-running phase on the real classes (no forced scheduling), plain build and ThreadSanitizer build
+    fr, frfails = None, []
+    if pid == "C14" and not replay_path:
+        import c14stress
+        fr = c14stress.run(l2, dr, seed, tier, d + ".free", [c for c in base])
+        frfails = fr["fails"]
     rc, viol = 0, []
+    if frfails:
+        why, info = frfails[0]
+        path = c14stress.write_replay(pid, why, info)
+        print("VIOLATION property=%s replay=%s" % (pid, path))
+        print(c14stress.describe(why, info))
+        for w in sorted(set(x[0][:150] for x in frfails[1:]))[:6]:
+            print("  also:", w)
+        viol.append(path); rc = 1
+    if fr is not None and fr["unchecked"] and not frfails:
+        path = cl.write_nofail_replay(pid, fr["unchecked"][0], fr["unchecked"][1])
+        print("VIOLATION property=%s replay=%s no-failing-input-found" % (pid, path))
+        viol.append(path); rc = 1
     if l3fails:
         why, rd = l3fails[0]
         path = l3refresh.write_replay(pid, why, rd)
@@ -212,7 +234,7 @@ def main(pid, tier, seed, replay_path=None):
         print("VIOLATION property=%s replay=%s" % (pid, path))
         print("  %s\n  cache mode: %s\n  op   : %s\n  impl : %s\n  model: %s" % (why, mode, r["op"], r["impl"][:300], r["model"][:300]))
         viol.append(path); rc = 1
-    elif not po["ok"] and not l3fails:
+    elif not po["ok"] and not l3fails and not viol:
         path = cl.write_nofail_replay(pid, "proof obligations of Properties_%s.v (%d of %d)" % (pid, po["discharged"], po["obligations"]), po["log"])
         print("VIOLATION property=%s replay=%s no-failing-input-found" % (pid, path))
         viol.append(path); rc = 1
@@ -225,25 +247,68 @@ def main(pid, tier, seed, replay_path=None):
                theorems=po["theorems"], print_assumptions=po["assumptions"], open_statements=cl_open(pid),
                evaluations=evals, distinct_nontrivial=len(nontriv) if pid != "C14" else len(traces),
                rule={"C13": "request histories (original order + permutation with repeats) over 3 scenarios on ONE TransitData, cache modes one/all; each response compared with the model's fresh answer and a sample with a fresh process; non-trivial = the request's scenario was cached earlier and another scenario was queried in between (miss, hit, replaced)",
-                     "C14": "2-3 concurrent requests over >=2 scenarios, one thread each, under forced schedules at the four yield points (all 20 interleavings for 2 threads in thorough, samples otherwise), cold and warmed caches, both cache modes; non-trivial = distinct observed yield-point traces",
+                     "C14": "2-3 concurrent requests over >=2 scenarios, one thread each, under forced schedules at the four yield points (all 20 interleavings for 2 threads in thorough, samples otherwise), cold and warmed caches, both cache modes; non-trivial = distinct observed yield-point traces. Free-running phase: 4-8 threads started together behind a barrier, each with a list of 6 route/accessibility requests (rotated in every second round) over 2-3 scenarios against ONE TransitData, no forced scheduling (the hook yields with probability 0-60 % or does nothing, optional start jitter <= 100 us), a fresh TransitData every round, both cache modes, datasets of the generators plus a profile with a few hundred connections; every response compared with the sequential response of the same request and with the model; the same phase on a harness built with -fsanitize=thread (fewer rounds): every unsuppressed ThreadSanitizer report is a violation, the first report goes into the replay file",
                      "C15": "histories with refreshes of kind all / schedules / scenarios+schedules between dataset pairs (trips dropped, times moved, scenario lists changed), both cache modes; non-trivial = request for a scenario cached before the refresh"}[pid],
                samples=samples or [dict(note="none")], histories=len(cases), fresh_process_comparisons=fresh_checked,
-               disagreements=len(fails) + len(l3fails), exhaustive=False)
+               disagreements=len(fails) + len(l3fails) + len(frfails), exhaustive=False)
+    if fr is not None:
+        cov.update(free_running_rounds=fr["rounds"], free_running_responses=fr["responses"], free_running_datasets=fr["datasets"],
+                   free_running_big_datasets=fr["big_datasets"], free_running_threads=fr["threads"], free_running_disagreements=len(frfails),
+                   tsan_rounds=fr["tsan_rounds"], tsan_responses=fr["tsan_responses"], tsan_reports=fr["tsan_reports"],
+                   tsan_report_kinds=fr["tsan_report_kinds"], tsan_suppressions=fr["tsan_suppressions"],
+                   tsan_suppressions_matched=fr["tsan_suppressions_matched"], tsan_datasets=fr["tsan_datasets"],
+                   free_running_wall_s=fr.get("wall_s"), tsan_wall_s=fr.get("tsan_wall_s"), tsan_build_s=fr.get("tsan_build_s"))
     if l3res is not None:
         cov.update(l3_refresh_histories=l3res["histories"], l3_refresh_answers=l3res["evaluations"], l3_refresh_kinds=l3res["kinds"],
                    l3_refresh_cache_modes=l3res["cache_modes"], l3_refresh_omitted=l3res["omitted"],
                    l3_refresh_answers_changed=l3res["answers_changed_by_refresh"], l3_refresh_disagreements=len(l3fails),
                    l3_refresh_rule="real binary over HTTP: server started on dataset A's cache files (k4: one kind of files missing), query set of 9 requests (route, alternatives, summary, accessibility; scenarios 1-3; both time types), files replaced by dataset B's (k5: one kind removed), GET /updateCache?names=all | schedules | scenarios,schedules, the queries again: every answer must equal the answer of a server newly started on the same directory; then A's files are put back, /updateCache again, and every answer must equal the start-up answer; replies of /updateCache must be the success object, the process must stay alive")
     assumptions = {"C13": ["L2: one TransitData per history; the HTTP layer is exercised by the L3 checks"],
-                   "C14": ["lookup and publish are atomic (shared_mutex) and a thread keeps its shared_ptr: trusted runtime; data races, torn updates and lifetimes are exercised (TSan/ASan builds in the thorough tier), not proved",
+                   "C14": ["lookup and publish are atomic (shared_mutex) and a thread keeps its shared_ptr: trusted runtime; data races, torn updates and lifetimes are exercised (forced schedules; free-running threads on a plain and on a ThreadSanitizer build in both tiers), not proved",
                            "alternatives re-fetch the set at every recalculation; the protocol model fetches once per request"],
                    "C15": ["L2 part: refresh = TransitData::update* in the /updateCache handler's order on an in-memory fetcher; the HTTP handler and the data status the endpoints answer from are exercised by the L3 part (real binary, Cap'n Proto files rewritten on disk, /updateCache over HTTP)"]}[pid]
     cl.write_evidence(pid, tier, seed, "proof", cov, assumptions, time.time() - t0, len(viol))
     l3txt = "" if l3res is None else " L3 (real server, /updateCache over HTTP): %d answers after refresh in %d histories %s, %d changed by the refresh, %d differ from a fresh server, %.1fs;" % (
         l3res["evaluations"], l3res["histories"], " ".join("%s=%d" % kv for kv in sorted(l3res["kinds"].items())), l3res["answers_changed_by_refresh"], len(l3fails), l3res["wall_s"])
-    print("%s %s: obligations %d/%d, %d responses in %d histories (%d non-trivial), %d fresh-process comparisons,%s %d violations, %.1fs" %
-          (pid, tier, po["discharged"], po["obligations"], evals, len(cases), cov["distinct_nontrivial"], fresh_checked, l3txt, len(fails) + len(l3fails), time.time() - t0))
+    frtxt = "" if fr is None else " free-running: %d responses in %d rounds (%d datasets, %d large), ThreadSanitizer: %d responses in %d rounds, %d reports, %d suppressions, %.1fs;" % (
+        fr["responses"], fr["rounds"], fr["datasets"], fr["big_datasets"], fr["tsan_responses"], fr["tsan_rounds"], fr["tsan_reports"], len(fr["tsan_suppressions"]), fr.get("wall_s") or 0)
+    print("%s %s: obligations %d/%d, %d responses in %d histories (%d non-trivial), %d fresh-process comparisons,%s%s %d violations, %.1fs" %
+          (pid, tier, po["discharged"], po["obligations"], evals, len(cases), cov["distinct_nontrivial"], fresh_checked, l3txt, frtxt, len(fails) + len(l3fails) + len(frfails), time.time() - t0))
     return rc
+
+
+def is_stress_case(path):
+    try:
+        with open(path) as f:
+            return any(l.split("#")[0].split()[:1] == ["stress"] for l in f)
+    except OSError:
+        return False
+
+
+def replay_stress(pid, tier, seed, replay_path):
+    """re-run a replay file of the free-running phase: several repetitions on the plain build, both cache modes, then the
+    ThreadSanitizer build"""
+    import c14stress
+    l2, e1 = build.build_l2()
+    dr, e2 = build.build_driver()
+    if e1 or e2:
+        path = cl.write_nofail_replay(pid, "harness/model build", e1 or e2)
+        print("VIOLATION property=%s replay=%s no-failing-input-found" % (pid, path))
+        return 1
+    d = os.path.join(build.WORK, "scratch", "%s-replay-free" % pid.lower())
+    fr = c14stress.run(l2, dr, seed, tier, d, [], only=replay_path, repeats=8)
+    if fr["fails"]:
+        why, info = fr["fails"][0]
+        print("VIOLATION property=%s replay=%s" % (pid, replay_path))
+        print(c14stress.describe(why, info))
+        return 1
+    if fr["unchecked"]:
+        path = cl.write_nofail_replay(pid, fr["unchecked"][0], fr["unchecked"][1])
+        print("VIOLATION property=%s replay=%s no-failing-input-found" % (pid, path))
+        return 1
+    print("%s replay %s: free-running %d responses in %d rounds, ThreadSanitizer %d responses in %d rounds, %d reports: all equal to the sequential responses" %
+          (pid, replay_path, fr["responses"], fr["rounds"], fr["tsan_responses"], fr["tsan_rounds"], fr["tsan_reports"]))
+    return 0
 
 
 def replay_l3(pid, replay_path):
